@@ -32,7 +32,7 @@ ApiStep(e) ==
       k0 == IF Started(e) THEN StartK(K) ELSE IF Stopped(e) THEN StopK(K) ELSE K
       known == w \in Spaces
       h == IF known THEN ActPart(e.call, k0, w) ELSE [k |-> k0, res |-> "notfound"]
-      mexp == IF known THEN H(e.call, K, Mn, w).m ELSE (IF e.call = "MineOne" THEN TRUE ELSE Mn)
+      mexp == IF known THEN H(e.call, K, Mn, w).m ELSE (IF e.call = "MineOne" THEN MinerStart(K, Mn).m ELSE Mn)
   IN
   /\ (known => CanCall(e.call, K, w))
   /\ (Started(e) => ~K.run /\ e.sgate = "start") /\ (Stopped(e) => K.run /\ ~Started(e))
